@@ -446,3 +446,18 @@ pub fn boundary_yaml_text(variant: usize) -> String {
     t.push_str("\"\n");
     t
 }
+
+/// One valid TOML document (many small tables) of at most `limit` bytes, ending at a table boundary.
+/// Its first lines make the YAML detection trial give up early, so detection from a reader gets to
+/// the TOML trial with almost nothing buffered.
+pub fn big_toml(limit: usize) -> Vec<u8> {
+    let mut big = String::from("# big\n");
+    loop {
+        let piece = format!("[t{}]\nk = \"aaaaaaaaaaaaaaaaaaaaaaaaaaaaaaaaaaaaaaaaaaaaaaaaaaaaaaaaaaaa\"\n", big.len());
+        if big.len() + piece.len() > limit {
+            break;
+        }
+        big.push_str(&piece);
+    }
+    big.into_bytes()
+}
